@@ -808,6 +808,24 @@ func (c *fsClient) Call(x *Exec, st *State, fr *Frame, site ssa.CallInstruction,
 		if p := g.fileOf[args[0].key]; p != nil {
 			g.setFlag("writerOut:"+w.key, p)
 		}
+		// HASH-TYPE: every table written for the stack carries the stack's hash id
+		{
+			hid := x.load(st, mk("field", "Config.HashID", nil, args[1]), nil)
+			ok := false
+			if hid != nil && hid.Op == "init" && len(hid.Args) > 0 {
+				if a := hid.Args[0]; a.Op == "field" && a.Aux == "Config.HashID" && a.Args[0].Op == "field" && a.Args[0].Aux == "Stack.cfg" {
+					ok = true
+				}
+			}
+			if os.Getenv("RSA_DEBUG") == "14" {
+				fmt.Fprintf(os.Stderr, "NewWriter cfg=%s hashid=%v\n", args[1].key, hid)
+			}
+			if ok {
+				c.okay("HASH-TYPE", role+" / new table is written with the stack's hash id", "the writer's Config.HashID is the handle's configured hash id")
+			} else {
+				c.violate(st, "HASH-TYPE", role+" / new table is written with the stack's hash id", pos, fmt.Sprintf("a table written for this stack gets hash id %v instead of the handle's configured one: once listed, reload and NewStack reject the stack", hid))
+			}
+		}
 		// NewWriter fails only on an invalid Config, which is fixed per handle
 		// and rejected by the first call before anything is committed.
 		return true, []CallOut{{St: st, Val: tupleOf(w, tNil)}}
